@@ -13,6 +13,7 @@ from .mergefam import plan_item
 from .c09 import classify
 
 HELPERS = ("git", "diff3", "builtin")
+ALL_HELPERS = HELPERS + ("diffonly",)       # diff without diff3: no merge helper, but not an empty PATH either
 
 
 def conflict_rich(t):
@@ -32,9 +33,11 @@ def make_tasks(triples, n_core, r):
                 plan.append(plan_item("cli", s, HELPERS[k % 3]))
             plan.append(plan_item("tool", ("mergetool", None, None, True), HELPERS[k % 3]))
         else:
-            for h in HELPERS:
+            for h in (ALL_HELPERS if k % 2 else HELPERS):
                 plan.append(plan_item("cli", ("inline", None, None, True), h))
             plan.append(plan_item("tool", ("mergetool", None, None, True)))
+            if k % 4 == 2:      # --log-level DEBUG: the merger also renders the inputs, both diffs and the decisions
+                plan.append(plan_item("cli", ("inline", None, None, True), debug=True))
             for s in r.sample(cli, 4):
                 plan.append(plan_item("cli", s, r.choice(HELPERS)))
         tasks.append((name, b, l, rr, plan, {}))
@@ -73,7 +76,7 @@ def run(prop="C03", clauses=("Completes",)):
     for name, b, l, rr, inf in triples[:2]:
         chk.sample({"triple": name, "edit_script": inf.get("script"), "abstract": inf.get("abstract")})
     chk.cov["rule"] = ("triples from spec/NotebookEdits.tla (one edit per side, TLC-enumerated) + random walks; runs = "
-                       "default strategy under each helper (git merge-file / diff3 / built-in, selected by a private PATH), "
+                       "default strategy under each helper (git merge-file / diff3 / built-in / a PATH with diff but no diff3, selected by a private PATH), "
                        "mergetool, sampled CLI strategies; a core subset under all 280 CLI strategies + mergetool; "
                        "evaluations = merges, distinct by abstract triple")
     chk.assumptions += ["helpers are made (un)available through PATH so shutil.which really (does not) find them",
